@@ -11,6 +11,8 @@ def registry():
         "C02": checks_codec.check_C02,
         "C03": checks_codec.check_C03,
         "C05": checks_codec.check_C05,
+        "C06": checks_codec.check_C06,
+        "C10": checks_codec.check_C10,
     }
     return reg
 
